@@ -92,7 +92,8 @@ def run(ctx):
              ("find last 2 'a' any any", 10**9), ("replace all digit with 'N'", 10**9), ("find all 'zzzz'", 10**9),
              ("find top 1 file start at least 0 any fewest file end", 2100), ("find top 1 at least 0 any 'zz'", 2),
              ("find all not letter not letter", 10**9), ("find all whole line", 10**9), ("find top 2 at least 3 (in 'a' to 'h')", 10**9),
-             ("find all (letter = x) x", 10**9), ("find skip 2 take 2 in ' ', '\\n'", 10**9), ("find top 1 whole file", 4200),
+             ("find all (letter = x) x", 10**9), ("find skip 2 take 2 in ' ', '\\n'", 10**9), ("find top 1 whole file", 10**9), ("replace all whole file with 'x'", 10**9),
+             ("find all whole file", 10**9),
              ("find all between 2 and 5 any line end", 10**9),
              # several commands over one file: every command reads the file from the start, whatever the commands before it did with their reader
              ("replace all 'a' with 'b' find all 'c'", 10**9), ("replace all digit with '#'\nreplace all 'e' with 'E'", 10**9), ("find all 'a' find all 'b' find top 1 any", 10**9),
@@ -102,7 +103,7 @@ def run(ctx):
         if sz > 9000:
             continue
         c = content(rng, sz)
-        for p, lim in (rng.sample(progs[:17], 4) + rng.sample(progs[17:], 2) if quick else progs):
+        for p, lim in ([pp for pp in progs if 'whole file' in pp[0]] + rng.sample(progs[:19], 3) + rng.sample(progs[19:], 2) if quick else progs):
             if sz > lim:
                 continue
             rb.append({"op": "runboth", "src_hex": vh.hexs(p), "content_hex": c.hex()})
